@@ -69,29 +69,57 @@ inductive Label where
   | num (e : Nat)
 deriving DecidableEq, Repr
 
-/-- `group` column of the statistics table: successive `df.loc[df.group == v] = name`
-assignments; a cell that already holds a name never equals a number again, so the
-first matching assignment wins. -/
-def statsLabelF (arr : Arr) (f : Nat) (e : Nat) : Label :=
+/-- one `df.loc[df.group == <values>, "group"] = name` statement of `to_frame`: a cell
+that still holds a number and matches becomes the name; a cell that already holds a
+name never compares equal to a number again. -/
+def assign (cell : Label) (stmt : (Nat → Bool) × String) : Label :=
+  match cell with
+  | .num e => if stmt.1 e then .name stmt.2 else .num e
+  | c => c
+
+/-- the assignment statements of the FIRST block of `to_frame` (statistics table), in
+source order, transcribed from that block (`f = int(n_z == 1)`) -/
+def statsAssignments (arr : Arr) (f : Nat) : List ((Nat → Bool) × String) :=
   match arr with
   | .square =>
-    if e == 3 - f then .name "corner"
-    else if e == 2 - f then .name "edge"
-    else if e == 1 then .name "side"
-    else if e == 0 then .name "core"
-    else .num e
+    [(fun e => e == 3 - f, "corner"), (fun e => e == 2 - f, "edge"),
+     (fun e => e == 1, "side"), (fun e => e == 0, "core")]
   | .hexagonal =>
-    if e == 5 - f then .name "corner"
-    else if e == 1 || e == 2 || e == 3 || e == 4 - f then .name "edge"
-    -- the following assignment of "side" to the same values never matches again
-    else if e == 0 then .name "core"
-    else .num e
+    [(fun e => e == 5 - f, "corner"),
+     (fun e => e == 1 || e == 2 || e == 3 || e == 4 - f, "edge"),
+     (fun e => e == 1 || e == 2 || e == 3 || e == 4 - f, "side"),
+     (fun e => e == 0, "core")]
+
+/-- the assignment statements of the SECOND block of `to_frame` (trajectory table), in
+source order, transcribed from that block as repaired by fix F7 (`df.group == 1` for
+`"side"`; before: `1 - (n_z == 1)`) -/
+def trajAssignments (arr : Arr) (f : Nat) : List ((Nat → Bool) × String) :=
+  match arr with
+  | .square =>
+    [(fun e => e == 3 - f, "corner"), (fun e => e == 2 - f, "edge"),
+     (fun e => e == 1, "side"), (fun e => e == 0, "core")]
+  | .hexagonal =>
+    [(fun e => e == 5 - f, "corner"),
+     (fun e => e == 1 || e == 2 || e == 3 || e == 4 - f, "edge"),
+     (fun e => e == 1 || e == 2 || e == 3 || e == 4 - f, "side"),
+     (fun e => e == 0, "core")]
+
+/-- `group` cell of the statistics table for a vial with exposure `e`: the statements
+applied one after the other to the numeric cell -/
+def statsLabelF (arr : Arr) (f : Nat) (e : Nat) : Label :=
+  (statsAssignments arr f).foldl assign (.num e)
 
 def statsLabel (arr : Arr) (nz : Nat) (e : Nat) : Label := statsLabelF arr (flat nz) e
 
-/-- `group` column of the trajectory table (second block of `to_frame`), as repaired
-(fix F7): the same assignments as the statistics table. -/
+/-- `group` cell of the trajectory table -/
 def trajLabelF (arr : Arr) (f : Nat) (e : Nat) : Label :=
+  (trajAssignments arr f).foldl assign (.num e)
+
+def trajLabel (arr : Arr) (nz : Nat) (e : Nat) : Label := trajLabelF arr (flat nz) e
+
+/-- closed form of the labelling (first matching statement wins; the hexagonal `"side"`
+statement can never fire) — a THEOREM relates it to both tables (`labels_closed_form`) -/
+def labelClosedF (arr : Arr) (f : Nat) (e : Nat) : Label :=
   match arr with
   | .square =>
     if e == 3 - f then .name "corner"
@@ -104,8 +132,6 @@ def trajLabelF (arr : Arr) (f : Nat) (e : Nat) : Label :=
     else if e == 1 || e == 2 || e == 3 || e == 4 - f then .name "edge"
     else if e == 0 then .name "core"
     else .num e
-
-def trajLabel (arr : Arr) (nz : Nat) (e : Nat) : Label := trajLabelF arr (flat nz) e
 
 /-- the trajectory-table labelling before fix F7 (`df.group == 1 - (n_z == 1)` for
 `"side"`), kept to state the counter-example -/
@@ -117,16 +143,25 @@ def trajLabelUpstreamF (arr : Arr) (f : Nat) (e : Nat) : Label :=
     else if e == 1 - f then .name "side"
     else if e == 0 then .name "core"
     else .num e
-  | .hexagonal => trajLabelF .hexagonal f e
+  | .hexagonal => labelClosedF .hexagonal f e
 
 def trajLabelUpstream (arr : Arr) (nz : Nat) (e : Nat) : Label := trajLabelUpstreamF arr (flat nz) e
 
-/-- Snowfall's `group=` argument: `"all"` (the bare string) keeps every row; anything
-else selects, as repaired (fix K5), the vials of `getVialGroup(group)`.
-Result: the selected vial indices in table order. -/
-def fallFilter (arr : Arr) (nx ny nz : Nat) (gs : List String) : Except String (List Nat) := do
-  let m ← getVialGroup arr nx ny nz gs
-  return (List.range m.length).filter fun i => m.getD i false
+/-- the rows of Snowfall's statistics table for one repetition and one variable:
+`(vial, group label)`, the label being that of `Snowflake.to_frame`'s statistics table -/
+def fallTableOf (arr : Arr) (nz : Nat) (exts : List Nat) : List (Nat × Label) :=
+  (List.range exts.length).map fun i => (i, statsLabel arr nz (exts.getD i 0))
+
+/-- Snowfall's `group=` argument as repaired (fix K5): the rows whose VIAL INDEX is
+selected by `getVialGroup(group)` (`df[df.vial.isin(np.where(mask)[0])]`); the bare
+string `"all"` bypasses the filter and `getVialGroup("all")` selects every vial. -/
+def fallFilterOf (arr : Arr) (nz : Nat) (exts : List Nat) (gs : List String) :
+    Except String (List (Nat × Label)) := do
+  let m ← maskOf arr nz exts gs
+  return (fallTableOf arr nz exts).filter fun row => m.getD row.1 false
+
+def fallFilter (arr : Arr) (nx ny nz : Nat) (gs : List String) : Except String (List (Nat × Label)) :=
+  fallFilterOf arr nz (extVec arr nx ny nz) gs
 
 /-- Snowfall's filter before fix K5: rows whose *label string* is one of the names -/
 def fallFilterUpstream (arr : Arr) (nx ny nz : Nat) (gs : List String) : List Nat :=
